@@ -12,7 +12,10 @@ RULE = (
     'computed from the model tree: length w(activator) x w(split event); the property itself (identity) when nothing splits; '
     'member k (activator-major, source order) differs from the input only in those two positions, carries an equal but distinct '
     'metadata dict, is a valid property, and is its own canonical form. A labelled extra family probes aliases bound by only '
-    'some alternatives (known finding F13). Non-trivial: some split position has width >= 2; distinct by text.'
+    'some alternatives (known finding F13). A history family applies canonical_form several times in one process - again to the '
+    'same object, to the same text parsed under other annotations (an equal property), to copies with another time bound / '
+    'behaviour / scope made with but(), and to members of earlier results - and compares every result with the expectation '
+    'computed from the object actually passed. Non-trivial: some split position has width >= 2; distinct by text.'
 )
 ASSUMPTIONS = ['the model tree of a generated text is the structure the parser builds (property C01)']
 
@@ -31,32 +34,25 @@ def split_role(pk):
     return None
 
 
-def sub_canonical(inp):
-    """inp: {'m': property model, 'text'}"""
-    m = inp['m']
-    text = inp['text']
-    k, p = lib.outcome('property', text)
-    if k != 'ast':
-        return 'rejected-by-parser'
-    st, r = core.guarded(_cf(), p)
-    if st == 'exc':
-        raise Violation('canonical', f'canonical_form:{core.exc_sig(r)}', inp, f'canonical_form({text!r}) raised {type(r).__name__}: {str(r)[:300]}')
-    _, _meta, sc, pt = m
-    acts = mast.simple_events(sc[2]) if sc[2] is not None else [None]
-    sr = split_role(pt[1])
-    split_ev = {'behaviour': pt[3], 'trigger': pt[2], None: None}[sr]
-    alts = mast.simple_events(split_ev) if split_ev is not None else [None]
-    wa, ws = len(acts), len(alts)
+def _verify(p, r, inp, text, wa=None, ws=None):
+    """Compare canonical_form's result r for the library property p with the expectation; wa/ws: widths from the model
+    (None: taken from p through the independent walker)."""
+    pk = p.pattern.pattern_type.name.lower()
+    sr = split_role(pk)
+    lib_acts = astx.flat_events(p.scope.activator) if p.scope.activator is not None else [None]
+    lib_alts = astx.flat_events(getattr(p.pattern, sr)) if sr else [None]
+    if wa is None:
+        wa, ws = len(lib_acts), len(lib_alts)
+    elif (wa, ws) != (len(lib_acts), len(lib_alts)):
+        raise core.HarnessError(f'model widths {wa}x{ws} differ from the parsed widths {len(lib_acts)}x{len(lib_alts)} for {text!r}')
     if not isinstance(r, list) or not all(astx.cname(x) == 'HplProperty' for x in r):
         raise Violation('canonical', 'kind', inp, f'canonical_form returned {r!r}'[:300])
     if len(r) != wa * ws:
-        raise Violation('canonical', f'length:{pt[1]}:{sc[1]}', inp, f'expected {wa} x {ws} = {wa * ws} members, got {len(r)} for {text!r}')
+        raise Violation('canonical', f'length:{pk}:{p.scope.scope_type.name.lower()}', inp, f'expected {wa} x {ws} = {wa * ws} members, got {len(r)} for {text!r}')
     if wa == 1 and ws == 1:
         if r[0] is not p:
             raise Violation('canonical', 'identity', inp, f'nothing to split in {text!r}, but the result is not the property itself')
         return 'no-split'
-    lib_acts = astx.flat_events(p.scope.activator) if p.scope.activator is not None else [None]
-    lib_alts = astx.flat_events(getattr(p.pattern, sr)) if sr else [None]
     kidx = 0
     for i in range(wa):
         for j in range(ws):
@@ -80,9 +76,9 @@ def sub_canonical(inp):
                 got = getattr(q.pattern, role)
                 if role == sr:
                     if got != lib_alts[j] or astx.cname(got) != 'HplSimpleEvent':
-                        raise Violation('canonical', f'member-split-event:{pt[1]}', inp, f'{where}: {role} is {got}, expected {lib_alts[j]}')
+                        raise Violation('canonical', f'member-split-event:{pk}', inp, f'{where}: {role} is {got}, expected {lib_alts[j]}')
                 elif got != getattr(p.pattern, role):
-                    raise Violation('canonical', f'member-other-event:{pt[1]}', inp, f'{where}: {role} is {got}, expected the unsplit {getattr(p.pattern, role)}')
+                    raise Violation('canonical', f'member-other-event:{pk}', inp, f'{where}: {role} is {got}, expected the unsplit {getattr(p.pattern, role)}')
             if q.metadata != p.metadata:
                 raise Violation('canonical', 'member-metadata', inp, f'{where}: metadata {q.metadata} != {p.metadata}')
             if q.metadata is p.metadata:
@@ -101,12 +97,120 @@ def sub_canonical(inp):
     return 'split'
 
 
-SUBS = {'canonical': sub_canonical}
+def sub_canonical(inp):
+    """inp: {'m': property model, 'text'}"""
+    m = inp['m']
+    text = inp['text']
+    k, p = lib.outcome('property', text)
+    if k != 'ast':
+        return 'rejected-by-parser'
+    st, r = core.guarded(_cf(), p)
+    if st == 'exc':
+        raise Violation('canonical', f'canonical_form:{core.exc_sig(r)}', inp, f'canonical_form({text!r}) raised {type(r).__name__}: {str(r)[:300]}')
+    _, _meta, sc, pt = m
+    acts = mast.simple_events(sc[2]) if sc[2] is not None else [None]
+    sr = split_role(pt[1])
+    split_ev = {'behaviour': pt[3], 'trigger': pt[2], None: None}[sr]
+    alts = mast.simple_events(split_ev) if split_ev is not None else [None]
+    return _verify(p, r, inp, text, len(acts), len(alts))
+
+
+def _relabel(m, tag):
+    """The same property with other annotations."""
+    return ('prop', (('id', f'twin_{tag}'), ('title', f'"{tag}"')), m[2], m[3])
+
+
+def sub_history(inp):
+    """canonical_form is a function of its argument only. inp: {'m', 'text', 'steps': [step...]}; steps are applied in
+    order to objects obtained earlier in the same process, and every result is compared with the expectation computed
+    from the object that was actually passed:
+      'same'   canonical_form(p) again: an equal list
+      'twin'   the same text parsed again with other annotations (an equal property, eq/hash ignore metadata)
+      'retime' p.but(pattern=p.pattern.but(max_time=T))
+      'reevent' p.but(pattern=p.pattern.but(behaviour=<the behaviour of a neutral property>)) when that passes the sanity check
+      'global' p.but(scope=globally) when that passes the sanity check
+      'member' canonical_form of a member of an earlier result
+    """
+    from hpl.ast import HplScope
+
+    m, text = inp['m'], inp['text']
+    k, p = lib.outcome('property', text)
+    if k != 'ast':
+        return 'rejected-by-parser'
+    cf = _cf()
+
+    def run_on(q, label):
+        st, r = core.guarded(cf, q)
+        if st == 'exc':
+            raise Violation('history', f'{label}:{core.exc_sig(r)}', inp, f'canonical_form raised {type(r).__name__}: {str(r)[:200]} at step {label} of {text!r} (argument: {q})')
+        try:
+            _verify(q, r, inp, f'{q} [step {label}]')
+        except Violation as v:
+            raise Violation('history', f'{label}:{v.sig}', inp, v.message) from None
+        return r
+
+    first = run_on(p, 'first')
+    results = [first]
+    done = []
+    for step in inp['steps']:
+        kind = step[0]
+        if kind == 'same':
+            again = run_on(p, 'same')
+            if again != first or [x.metadata for x in again] != [x.metadata for x in first]:
+                raise Violation('history', 'same:differs', inp, f'canonical_form({text!r}) gives {again} after having given {first}')
+        elif kind == 'twin':
+            t2 = mast.render(_relabel(m, step[1]))
+            k2, p2 = lib.outcome('property', t2)
+            if k2 != 'ast':
+                raise Violation('history', 'twin:rejected', inp, f'{t2!r} is rejected although {text!r} is accepted')
+            results.append(run_on(p2, 'twin'))
+        elif kind == 'retime':
+            st, q = core.guarded(lambda: p.but(pattern=p.pattern.but(max_time=float(step[1]))))
+            if st == 'ok':
+                results.append(run_on(q, 'retime'))
+        elif kind == 'reevent':
+            st, q = core.guarded(lambda: p.but(pattern=p.pattern.but(behaviour=lib.parser('property').parse('globally: no zz9 {zq = 1}').pattern.behaviour)))
+            if st == 'ok':
+                results.append(run_on(q, 'reevent'))
+        elif kind == 'global':
+            st, q = core.guarded(lambda: p.but(scope=HplScope.globally()))
+            if st == 'ok':
+                results.append(run_on(q, 'global'))
+        elif kind == 'member':
+            r = results[step[1] % len(results)]
+            q = r[step[2] % len(r)]
+            again = run_on(q, 'member')
+            if not (len(again) == 1 and again[0] is q):
+                raise Violation('history', 'member:not-itself', inp, f'canonical_form of the member {q} is {again}')
+        done.append(kind)
+    return 'split' if len(first) > 1 else 'no-split'
+
+
+SUBS = {'canonical': sub_canonical, 'history': sub_history}
 
 
 def build(ch, shape):
     m, _info = gen.properties(ch, depth=ch.int(1, 3), wild_time=ch.int(0, 3) == 0, shape=shape)
     return {'m': m, 'text': mast.render(m)}
+
+
+def build_history(ch):
+    shapes = gen.all_shapes()
+    shape = shapes[ch.int(0, len(shapes) - 1)]
+    # small predicates: equal properties (the same text under other annotations, simple properties that recur) matter here
+    m, _info = gen.properties(ch, depth=ch.int(0, 1), wild_time=False, shape=shape)
+    steps = []
+    for _ in range(ch.int(2, 5)):
+        k = ch.pick(['same', 'twin', 'twin', 'retime', 'retime', 'reevent', 'global', 'member'])
+        if k == 'twin':
+            steps.append((k, ch.pick(['t1', 't2', 't3'])))
+        elif k == 'retime':
+            steps.append((k, ch.pick([0.5, 5, 30, 1000])))
+        elif k == 'member':
+            steps.append((k, ch.int(0, 7), ch.int(0, 15)))
+        else:
+            steps.append((k,))
+    return {'m': m, 'text': mast.render(m), 'steps': steps}
 
 
 def shard(ctx, shard_no, nshards, per_shape):
@@ -154,6 +258,15 @@ def shard(ctx, shard_no, nshards, per_shape):
                 raise
             r = 'known-finding'
         ctx.case(inp['text'], True, 'partial-alias-family:' + r, sample=inp['text'])
+
+    def body_hist(inp):
+        r = sub_history(inp)
+        ctx.case((inp['text'], tuple(inp['steps'])), r == 'split', 'history:' + r)
+        for x in inp['steps']:
+            ctx.count('history-step:' + x[0])
+
+    with ctx.timed('history'):
+        core.run_hypothesis(ctx, 'history', from_tape(build_history), body_hist, 400 if ctx.tier == 'quick' else 2500)
 
     with ctx.timed('f13-family'):
         core.run_hypothesis(ctx, 'f13', from_tape(c14.gen_f13_case), body_f13, 100 if ctx.tier == 'quick' else 400)
